@@ -83,8 +83,8 @@ def _static_type(prog: Program, fn: FuncInfo, e: ast.AST, at: int | None = None,
     """('plain' | 'bad' | 'unknown', description) of the value of expression e."""
     if isinstance(e, ast.Constant):
         return ("plain", type(e.value).__name__)
-    if isinstance(e, (ast.BinOp, ast.UnaryOp)) and depth < 6:
-        parts = [e.left, e.right] if isinstance(e, ast.BinOp) else [e.operand]
+    if isinstance(e, (ast.BinOp, ast.UnaryOp, ast.IfExp)) and depth < 6:
+        parts = [e.left, e.right] if isinstance(e, ast.BinOp) else [e.body, e.orelse] if isinstance(e, ast.IfExp) else [e.operand]
         kinds = [_static_type(prog, fn, p, at, depth + 1) for p in parts]
         if any(k[0] == "bad" for k in kinds):
             return [k for k in kinds if k[0] == "bad"][0]
